@@ -228,6 +228,9 @@ func main() {
 	cleanup := func() {
 		for _, w := range workers {
 			w.solver.Close()
+			if w.alt != nil {
+				w.alt.Close()
+			}
 		}
 		if replayBin != "" {
 			os.Remove(replayBin)
@@ -298,6 +301,11 @@ func main() {
 			// evidence says so (budget_exhausted on the harness entry, paths actually explored)
 			fmt.Printf("BOUND-NOT-ESTABLISHED: %s: time budget exhausted after %d paths; every obligation explored held, the remaining paths of the stated bound were not explored\n", h.Func, r.Paths)
 			budgetNotes = append(budgetNotes, fmt.Sprintf("%s: time budget exhausted after %d paths (%.0f s); the stated bound is not established by this run", h.Func, r.Paths, r.WallS))
+		}
+		if r.Inconclusive > 0 && !h.Twin {
+			// a solver timeout/unknown is never counted as success: the obligation is outside what this run established
+			fmt.Printf("BOUND-NOT-ESTABLISHED: %s: %d of %d obligations got no solver verdict (unknown/timeout); they are not claimed\n", h.Func, r.Inconclusive, r.Obligations)
+			budgetNotes = append(budgetNotes, fmt.Sprintf("%s: %d of %d obligations got no solver verdict (unknown/timeout); they are not claimed by this run (labels under coverage.inconclusive_labels)", h.Func, r.Inconclusive, r.Obligations))
 		}
 		for _, lbl := range h.MustReach {
 			if eng.reached[h.Func+"/"+lbl] == 0 {
@@ -616,6 +624,7 @@ func writeEvidence(path string, cfg *HarnessConfig, eng *engine, tier string, se
 		"obligations":                   eng.stats.Obligations,
 		"discharged":                    eng.stats.Discharged,
 		"inconclusive":                  eng.stats.Inconclusive,
+		"second_solver_queries":         eng.stats.SecondOpinions,
 		"states":                        eng.stats.Paths,
 		"transitions":                   eng.stats.Instructions,
 		"traces_validated_against_impl": len(confirmed),
